@@ -10,6 +10,7 @@ import (
 	"path/filepath"
 	"sort"
 	"strings"
+	"syscall"
 
 	"github.com/FollowTheProcess/spok/file"
 	"github.com/FollowTheProcess/spok/iostream"
@@ -55,9 +56,12 @@ type Step struct {
 	keep **file.SpokFile
 	// Cwd (run steps): the working directory of the process while spok runs — one of three scratch
 	// directories beside the project. Where spok is started from has no bearing on the project's cache.
-	Cwd     int            `json:"cwd,omitempty"`
-	Op      string         `json:"op"` // write revert delete run rmcache
-	File    string         `json:"file,omitempty"`
+	Cwd  int    `json:"cwd,omitempty"`
+	Op   string `json:"op"` // write revert delete swap run rmcache
+	File string `json:"file,omitempty"`
+	// File2 (swap): the two names exchange what they refer to (mv a tmp; mv b a; mv tmp b) - two regular
+	// files, or two symbolic links that thereby exchange their targets
+	File2   string         `json:"file2,omitempty"`
 	Content string         `json:"content,omitempty"`
 	Tasks   []string       `json:"tasks,omitempty"`
 	Force   bool           `json:"force,omitempty"`
@@ -66,6 +70,9 @@ type Step struct {
 	// Abort: tasks whose first command makes the runner itself return an error (what a command
 	// that is not valid shell syntax does), so that the whole run stops with an error at that task.
 	Abort []string `json:"abort,omitempty"`
+	// Busy/BusyErr (graph cases): see GraphCase.Busy
+	Busy    []string `json:"busy,omitempty"`
+	BusyErr string   `json:"busy_err,omitempty"`
 }
 
 // CacheCase is a program, an initial tree and a history.
@@ -79,6 +86,10 @@ type CacheCase struct {
 	Tasks []TaskSpec        `json:"tasks"`
 	Init  map[string]string `json:"init"`
 	Steps []Step            `json:"steps"`
+	// Late: tasks the spokfile does not have at first; each step "grow" adds the next one at the end
+	// of the file (spokfiles are edited between runs: what was recorded for the tasks that were there
+	// before still counts)
+	Late []TaskSpec `json:"late,omitempty"`
 	// Links: symbolic links (name -> target, relative to the project) created before the first
 	// step; a dependency path that is a link denotes the content seen through it.
 	Links map[string]string `json:"links,omitempty"`
@@ -121,10 +132,26 @@ type recorder struct {
 	// onStart is called when the first command of a task runs (side effects, snapshots)
 	onStart func(task string)
 	abort   map[string]bool
+	// busy: tasks whose second command cannot be started at the first attempt (busyErr); first counts
+	// how often a task's first command text was run; busied: the error was handed out
+	busy    map[string]bool
+	busyErr error
+	first   map[string]int
+	busied  bool
+	tried   map[string]bool
 }
 
 func (r *recorder) Run(cmd string, _ iostream.IOStream, taskName string, _ []string) (shell.Result, error) {
 	idx := r.count[taskName]
+	if r.busy[taskName] {
+		if strings.HasSuffix(cmd, " 0") {
+			r.first[taskName]++
+		} else if !r.tried[taskName] {
+			r.tried[taskName], r.busied = true, true
+			r.calls = append(r.calls, call{task: taskName, status: -2})
+			return shell.Result{}, &os.PathError{Op: "fork/exec", Path: "./tool", Err: r.busyErr}
+		}
+	}
 	r.count[taskName]++
 	if idx == 0 && r.onStart != nil {
 		r.onStart(taskName)
@@ -220,7 +247,14 @@ type runResult struct {
 }
 
 func doRun(root, src string, st Step, onStart ...func(string)) runResult {
-	rec := &recorder{count: map[string]int{}, fail: st.Fail, abort: map[string]bool{}}
+	rec := &recorder{count: map[string]int{}, fail: st.Fail, abort: map[string]bool{}, busy: map[string]bool{}, first: map[string]int{}, tried: map[string]bool{}}
+	for _, n := range st.Busy {
+		rec.busy[n] = true
+	}
+	rec.busyErr = map[string]error{"ETXTBSY": syscall.ETXTBSY, "EAGAIN": syscall.EAGAIN, "EINTR": syscall.EINTR, "EMFILE": syscall.EMFILE}[st.BusyErr]
+	if rec.busyErr == nil {
+		rec.busyErr = syscall.ETXTBSY
+	}
 	for _, a := range st.Abort {
 		rec.abort[a] = true
 	}
@@ -294,13 +328,19 @@ func execCache(id string, s *ev.Shard, root string, c CacheCase) *rp.Fail {
 			cur[name] = fileState{exists: true, content: linkMarker + target}
 		}
 	}
+	links := map[string]string{} // as they are now (a swap exchanges targets)
+	for name, target := range c.Links {
+		links[name] = target
+	}
+	active := append([]TaskSpec(nil), c.Tasks...)
+	late := append([]TaskSpec(nil), c.Late...)
 	src := c.Source()
 	specs := map[string]TaskSpec{}
-	for _, t := range c.Tasks {
+	for _, t := range active {
 		specs[t.Name] = t
 	}
 	state := map[string]*taskState{}
-	for _, t := range c.Tasks {
+	for _, t := range active {
 		state[t.Name] = &taskState{}
 	}
 	size := len(c.Steps) + len(c.Tasks)
@@ -358,6 +398,40 @@ func execCache(id string, s *ev.Shard, root string, c CacheCase) *rp.Fail {
 				return &rp.Fail{Sig: "harness", Msg: err.Error()}
 			}
 			fileActSinceRun = true
+		case "swap":
+			a, b2 := st.File, st.File2
+			ta, aLink := links[a]
+			tb, bLink := links[b2]
+			ca, cb := cur[a], cur[b2]
+			switch {
+			case aLink && bLink:
+				links[a], links[b2] = tb, ta
+			case !aLink && !bLink && ca.exists && cb.exists && !strings.HasPrefix(ca.content, linkMarker) && !strings.HasPrefix(cb.content, linkMarker) && filepath.Dir(a) == filepath.Dir(b2):
+				prev[a], prev[b2] = ca, cb
+				cur[a], cur[b2] = cb, ca
+			default:
+				continue // not a pair this step applies to
+			}
+			pa, pb := filepath.Join(root, filepath.FromSlash(a)), filepath.Join(root, filepath.FromSlash(b2))
+			tmp := pa + ".swapping"
+			for _, mv := range [][2]string{{pa, tmp}, {pb, pa}, {tmp, pb}} {
+				if err := os.Rename(mv[0], mv[1]); err != nil {
+					return &rp.Fail{Sig: "harness", Msg: err.Error()}
+				}
+			}
+			fileActSinceRun = true
+		case "grow":
+			if len(late) == 0 {
+				continue
+			}
+			nt := late[0]
+			late = late[1:]
+			active = append(active, nt)
+			specs[nt.Name] = nt
+			state[nt.Name] = &taskState{}
+			grown := c
+			grown.Tasks = active
+			src = grown.Source()
 		case "rmcache":
 			if st.Whole {
 				_ = os.RemoveAll(filepath.Join(root, ".spok"))
@@ -368,6 +442,15 @@ func execCache(id string, s *ev.Shard, root string, c CacheCase) *rp.Fail {
 				ts.last, ts.tainted, ts.unknown = nil, false, false
 			}
 		case "run":
+			undefined := false
+			for _, n := range st.Tasks {
+				if _, ok := specs[n]; !ok {
+					undefined = true
+				}
+			}
+			if undefined {
+				continue // asks for a task the spokfile does not have yet: not a run of these histories
+			}
 			entries, err := model.Walk(root)
 			if err != nil {
 				return &rp.Fail{Sig: "harness", Msg: err.Error()}
@@ -377,7 +460,7 @@ func execCache(id string, s *ev.Shard, root string, c CacheCase) *rp.Fail {
 			// when spok looked at it (its position in the run order).
 			takeAll := func(entries []model.Entry) map[string]snapshot {
 				m := map[string]snapshot{}
-				for _, t := range c.Tasks {
+				for _, t := range active {
 					m[t.Name] = takeSnapshot(root, entries, t)
 				}
 				return m
@@ -395,7 +478,7 @@ func execCache(id string, s *ev.Shard, root string, c CacheCase) *rp.Fail {
 				for _, w := range sp.Writes {
 					// the file itself and every link that leads to it
 					written := []string{w.File}
-					for ln, target := range c.Links {
+					for ln, target := range links {
 						if target == w.File {
 							written = append(written, ln)
 						} else if strings.HasPrefix(w.File, target+"/") {
@@ -447,7 +530,7 @@ func execCache(id string, s *ev.Shard, root string, c CacheCase) *rp.Fail {
 					cur++
 				}
 			}
-			for _, t := range c.Tasks {
+			for _, t := range active {
 				if decided[t.Name] {
 					continue
 				}
@@ -518,7 +601,7 @@ func execCache(id string, s *ev.Shard, root string, c CacheCase) *rp.Fail {
 				}
 			}
 			if id == "C02" && !st.Force {
-				for _, t := range c.Tasks {
+				for _, t := range active {
 					ts, snap := state[t.Name], now[t.Name]
 					executed := rr.rec.count[t.Name] > 0
 					if t.NCmds == 0 {
@@ -570,7 +653,7 @@ func execCache(id string, s *ev.Shard, root string, c CacheCase) *rp.Fail {
 			}
 
 			// ---- model update from the recorder's observations -----------------------
-			for _, t := range c.Tasks {
+			for _, t := range active {
 				ts := state[t.Name]
 				snap := now[t.Name]
 				if selfModified[t.Name] {
